@@ -17,7 +17,7 @@ import unicodedata
 import gen
 import impl
 from common import Report, build_scratch, run_tlc, tmp_dir
-from concretise import concretise, GAP_PLAIN, GAP_BREAK
+from concretise import concretise, layout_variant
 
 RULE = ('(a) all strings of length <= k over the character alphabet that lex '
         'without error, (b) programs derived by TLC (themes + simulate) '
@@ -133,20 +133,6 @@ def explained_by_gap_lsps(text, toks):
             continue
         j += 1
     return all(pos.get(t[0]) == (t[2], t[3]) for t in toks)
-
-
-def layout_variant(sent, rng):
-    gaps = {}
-    plain = list(GAP_PLAIN.values())
-    brk = list(GAP_BREAK.values())
-    for t in sent.tokens:
-        if t.idx == 0:
-            gaps[0] = rng.choice(['', '\n', ' ', '/* x\n y */', '\r\n'])
-        elif t.nl or rng.random() < 0.25:
-            gaps[t.idx] = rng.choice(brk)
-        else:
-            gaps[t.idx] = rng.choice(plain[:1] * 3 + plain)
-    return gaps
 
 
 def main(tier, seed, replay=None):
